@@ -34,8 +34,8 @@ F8 = "F8-restore-drops-stored-policy"
 
 def plan(tier):
     if tier == "quick":
-        return dict(shards=16, examples=64, time_budget_s=800, min_nontrivial=20, shrink_cap_s=120)
-    return dict(shards=16, examples=960, time_budget_s=3400, min_nontrivial=300)
+        return dict(shards=16, examples=64, time_budget_s=800, min_nontrivial=10, shrink_cap_s=120)
+    return dict(shards=16, examples=960, time_budget_s=3400, min_nontrivial=120)
 
 
 def strategy(tier, shard):
